@@ -751,6 +751,89 @@ def r06_8(rep: Report) -> None:
                  'that is not stored (one more S entry than num_media_segments; its request is answered 404)', st)
 
 
+def r06_9(rep: Report) -> None:
+    """a request past the end of a static presentation is refused: the number a static request is
+    mapped to must grow with the requested time, so that the first..last test of the handler can refuse
+    it.  A lookup that *wraps* at the end of the stored media (the live loop: `if index >
+    num_media_segments: index = 1`, or `% num_media_segments`) maps every time past the end back onto
+    stored segments.  Rule: in the methods of Representation, a call of a wrapping lookup (directly or
+    through other methods of the class) is reached only on paths that imply live mode."""
+    from ..flow import Disjunctive
+    from ..pathcond import PathCond, atoms_of, entails as pc_entails, f_or, show as pc_show
+    rid = 'R06.9'
+    tree = rep.repo.tree(REP)
+    cls = need(find_class(tree, 'Representation'), 'Representation')
+    methods = {m.name: m for _c, m in rep.repo.expanded_functions(REP) if _c is cls}
+
+    def wraps_itself(fn: ast.AST) -> bool:
+        for n in ast.walk(fn):
+            if isinstance(n, ast.BinOp) and isinstance(n.op, ast.Mod) and 'num_media_segments' in norm(n.right):
+                return True
+            if isinstance(n, ast.If) and isinstance(n.test, ast.Compare) and len(n.test.ops) == 1 \
+                    and isinstance(n.test.ops[0], (ast.Gt, ast.GtE, ast.Eq)) and isinstance(n.test.left, ast.Name) \
+                    and 'num_media_segments' in norm(n.test.comparators[0]):
+                v = n.test.left.id
+                if any(isinstance(a_, ast.Assign) and len(a_.targets) == 1 and norm(a_.targets[0]) == v
+                       and (isinstance(a_.value, ast.Constant) or norm(a_.value).endswith('start_number'))
+                       for b_ in n.body for a_ in ast.walk(b_)):
+                    return True
+        return False
+    wrapping = {name for name, m in methods.items() if wraps_itself(m)}
+    if not wrapping:
+        raise AnalysisError('Representation: no method with the loop-wrap idiom found (index reset at num_media_segments)')
+    # lookups, not listings: a wrapping method that takes a time / number and returns a position
+    lookups = {n for n in wrapping if not n.startswith('generate')}
+    changed = True
+    while changed:
+        changed = False
+        for name, m in methods.items():
+            if name in lookups or name.startswith('generate'):
+                continue
+            calls = {c.func.attr for c in ast.walk(m) if isinstance(c, ast.Call) and isinstance(c.func, ast.Attribute)
+                     and norm(c.func.value) == 'self'}
+            # a method is a wrapping lookup itself when it calls one unconditionally (no mode test at all)
+            if calls & lookups and "mode" not in norm(m):
+                lookups.add(name)
+                changed = True
+    n_sites = 0
+    for name, m in sorted(methods.items()):
+        if name in lookups:
+            continue
+        sites = [c for c in ast.walk(m) if isinstance(c, ast.Call) and isinstance(c.func, ast.Attribute)
+                 and norm(c.func.value) == 'self' and c.func.attr in lookups]
+        if not sites:
+            continue
+        construct = f'{REP}::Representation.{name}'
+        verdicts: list = []
+
+        def on_stmt(st, states, _sites=sites, _v=verdicts):
+            if isinstance(st, (ast.If, ast.While, ast.For, ast.With, ast.Try)):
+                return
+            hit = [c for c in _sites if any(x is c for x in ast.walk(st))]
+            if not hit:
+                return
+            for x in states:
+                lives = [('atom', a_) for a_ in atoms_of(x[0]) if re.search(r"\.mode == 'live'$", a_)]
+                ok_ = bool(lives) and pc_entails(x[0], f_or(*lives) if len(lives) > 1 else lives[0]) is True
+                _v.append((ok_, hit[0], pc_show(x[0])))
+        Flow(Disjunctive(PathCond(subst={'timing': 'self._timing'}), cap=256), on_stmt=on_stmt).run(
+            m, [PathCond.initial()])
+        for c in sites:
+            n_sites += 1
+            vs = [v for v in verdicts if v[1] is c]
+            key = f'self.{c.func.attr}(..) only in live mode'
+            if vs and all(v[0] for v in vs):
+                rep.ok(rid, construct, key, f'{len(vs)} path(s), all imply live mode')
+            else:
+                pc = next((v[2] for v in vs if not v[0]), 'not reached by the path engine')
+                rep.fail(rid, construct, key,
+                         f'`{short(c, 60)}` wraps at the end of the stored media and is reached on a path that does '
+                         f'not imply live mode (path condition: {pc[:120]}): a static request for a time past the end is '
+                         'mapped back onto a stored segment and served with 200 instead of being refused', c)
+    if n_sites < 2:
+        raise AnalysisError(f'only {n_sites} call(s) of a wrapping lookup found in Representation')
+
+
 def analyse(rep: Report) -> None:
     rep.explanation = (
         'Conventions that the static manifests and the media endpoint must share: the inclusive '
@@ -766,6 +849,7 @@ def analyse(rep: Report) -> None:
     rep.rule('R06.7', 'entries of the generated segment lists are distinct objects, not modified once listed', floor=2)
     rep.rule('R06.8', 'a static SegmentTimeline covers exactly the track\'s own duration', floor=1)
     rep.rule('R06.4', 'indexer clock: start = previous end or tfdt, end = start + sample durations', floor=6)
+    rep.rule('R06.9', 'static requests are not mapped through a lookup that wraps at the end of the media', floor=2)
     r06_1(rep)
     r06_2(rep)
     r06_3(rep)
@@ -774,3 +858,4 @@ def analyse(rep: Report) -> None:
     r06_6(rep)
     r06_7(rep)
     r06_8(rep)
+    r06_9(rep)
